@@ -27,6 +27,25 @@ BASE_ASSUMPTIONS = [
 ]
 
 
+class BoundedResult:
+    """what the bounded worker process reported (vf/bworker.py)"""
+
+    def __init__(self, res, tier):
+        res = res or {}
+        self._summary = res.get('summary') or {'scope': 'worker produced no result', 'evaluations': 0, 'distinct': 0, 'distinct_nontrivial': 0,
+                                               'sections': {}, 'exhaustive_parts': [], 'samples': [], 'notes': [], 'seconds': 0, 'violations': 0}
+        self.violations = list(res.get('violations') or [])
+        self.evaluations = res.get('evaluations', 0)
+        self.notes = []
+        self.scope = self._summary.get('scope')
+
+    def summary(self, scope=None):
+        s = dict(self._summary)
+        s['notes'] = list(s.get('notes', [])) + self.notes
+        s['violations'] = len(self.violations)
+        return s
+
+
 def load_known_findings():
     p = os.path.join(VERIF, 'known_findings.json')
     if not os.path.exists(p):
@@ -365,16 +384,10 @@ class PropertyRun:
         if not getattr(plan, 'BOUNDED', None):
             self.brep = None
             return None
-        mod = importlib.import_module(plan.BOUNDED)
         budget = plan.BOUNDED_BUDGET[self.tier] if hasattr(plan, 'BOUNDED_BUDGET') else (60 if self.tier == 'quick' else 600)
-        brep = BoundedReport(self.pid, self.tier, self.seed, budget)
-        try:
-            mod.run(brep)
-        except Exception:
-            brep.note('driver crashed: ' + traceback.format_exc()[-800:])
-            self.bounded_crash = True
+        brep = self.run_bounded_worker(plan.BOUNDED, budget)
         self.brep = brep
-        self.bscope = mod.SCOPE[self.tier]
+        self.bscope = brep.scope
         per_finding = {}
         for v in brep.violations:
             info = {'property': self.pid, 'bounded': plan.BOUNDED, 'what': v['what'], 'case': v['case'], 'finding': v.get('finding')}
@@ -390,6 +403,88 @@ class PropertyRun:
                 continue
             path = self.write_replay(dict(info, obligation='bounded_' + (v.get('finding') or 'case')))
             self.violations.append({'what': v['what'], 'replay': path, 'finding': v.get('finding')})
+        return brep
+
+    STALL_S = {'quick': 420, 'thorough': 1200}
+
+    def run_bounded_worker(self, modname, budget, replay_only=False):
+        """the driver runs in a child process: a crash (signal) or a call into the real code that never
+        returns is observed by the parent instead of taking the checker down or hanging it"""
+        import subprocess
+        import signal
+        d = os.path.join(VERIF, '.cache', 'bounded')
+        os.makedirs(d, exist_ok=True)
+        tag = '%s_%d_%d' % (self.pid, os.getpid(), int(time.time() * 1000) % 1000000)
+        out, prog = os.path.join(d, tag + '.json'), os.path.join(d, tag + '.progress')
+        for f in (out, prog, prog + '.stack'):
+            if os.path.exists(f):
+                os.unlink(f)
+        cmd = [sys.executable, '-m', 'vf.bworker', modname, self.pid, self.tier, str(self.seed), str(budget), out, prog]
+        p = subprocess.Popen(cmd, cwd=VERIF, stdout=subprocess.DEVNULL, stderr=subprocess.DEVNULL)
+        stall = self.STALL_S.get(self.tier, 420)
+        t_start = time.time()
+        status = 'ok'
+        while True:
+            try:
+                p.wait(timeout=2.0)
+                break
+            except subprocess.TimeoutExpired:
+                pass
+            lastbeat = t_start
+            try:
+                lastbeat = max(lastbeat, os.path.getmtime(prog))
+            except OSError:
+                pass
+            if time.time() - lastbeat > stall:
+                status = 'stalled'
+                try:
+                    p.send_signal(signal.SIGUSR1)
+                    time.sleep(2.0)
+                except Exception:
+                    pass
+                p.kill()
+                p.wait()
+                break
+        res = None
+        if os.path.exists(out):
+            try:
+                res = json.load(open(out))
+            except Exception:
+                res = None
+        progress, stack = None, ''
+        try:
+            progress = json.load(open(prog))
+        except Exception:
+            pass
+        try:
+            stack = open(prog + '.stack').read()[-3000:]
+        except Exception:
+            pass
+        for f in (out, prog, prog + '.stack'):
+            if os.path.exists(f):
+                os.unlink(f)
+        brep = BoundedResult(res, self.tier)
+        if res is None:
+            # no result file: the worker died (signal) or was killed after a stall
+            rc = p.returncode
+            died = status == 'stalled' or (rc is not None and rc < 0)
+            in_repo = '/tangermeme/' in stack or 'tangermeme' in stack
+            what = ('bounded driver %s: a call into the code under test %s (last heartbeat after %s evaluations, sections %s)'
+                    % (modname, 'did not return within %d s' % stall if status == 'stalled' else 'killed the interpreter (signal %s)' % (-rc if rc else '?'),
+                       (progress or {}).get('evaluations'), (progress or {}).get('sections')))
+            brep.notes.append(what)
+            brep.notes.append('python stack of the worker: ' + stack[-1500:])
+            if died and in_repo and not replay_only:
+                brep.violations.append({'what': what + '; stack: ' + ' | '.join(l.strip() for l in stack.splitlines() if 'File' in l)[-600:],
+                                        'case': {'kind': 'worker-died', 'driver': modname, 'tier': self.tier, 'seed': self.seed, 'budget': budget,
+                                                 'status': status, 'progress': progress, 'stack': stack[-2000:]},
+                                        'finding': 'real-code-crash-or-hang'})
+            elif not died or not in_repo:
+                self.bounded_crash = True
+            brep.died = died and in_repo
+        elif res.get('crash'):
+            brep.notes.append('driver crashed: ' + res['crash'])
+            self.bounded_crash = True
         return brep
 
     def match_known(self, v):
@@ -500,6 +595,18 @@ def run_property(pid, tier, seed):
 def replay_file(pid, path):
     info = json.load(open(path))
     plan = importlib.import_module('props.' + pid)
+    if 'bounded' in info and isinstance(info.get('case'), dict) and info['case'].get('kind') == 'worker-died':
+        # the stored event is "the driver's run with this seed crashed / hung inside the code under test":
+        # the same run is repeated (in a watched child process)
+        c = info['case']
+        pr = PropertyRun(plan, c.get('tier', 'quick'), int(c.get('seed', 0)))
+        brep = pr.run_bounded_worker(c['driver'], c.get('budget', 60))
+        if getattr(brep, 'died', False):
+            print("  still violates:", brep.violations[0]['what'][:400] if brep.violations else 'worker died again')
+            print("VIOLATION property=%s replay=%s" % (pid, path))
+            return 1
+        print("replay: the driver run completes on the current tree")
+        return 0
     if 'bounded' in info:
         mod = importlib.import_module(info['bounded'])
         out = mod.replay(info['case'])
